@@ -1,6 +1,7 @@
 import WcModel.Properties.C10
 #print axioms WcModel.C10.root_error_only_noabs
+#print axioms WcModel.C10.root_ok
 #print axioms WcModel.C10.parse_ok_of_not_noabs
-#print axioms WcModel.C10.matcher_decides
 #print axioms WcModel.C10.noabs_witness
 #print axioms WcModel.C10.D9_fixed_witness
+#print axioms WcModel.C10.matcher_decides
